@@ -1,4 +1,5 @@
 import BoltonsVerif.C08.Proofs
+import BoltonsVerif.Generated.C08_Facts
 /-
 C08 — property theorems for the models of `remap` / `research` / `get_path`
 (statements, short derivations from `Proofs.lean`, non-vacuity examples).
@@ -210,6 +211,25 @@ theorem heap_remap_eq_rec_partial (c : HCfg) (h : Heap) (root : Obj) (n : Nat) (
     hfinal c h root = ⟨[], [], st'.reg, [], st'.out, v, st'.trace, none⟩ :=
   hfinal_eq_recRoot c h root n st' v hr
 
+/-- TOTAL version, raising visit callbacks included: for EVERY heap (sharing, cycles) and EVERY visit
+    callback - one that raises with `reraise_visit=True` too - the memoised recursion `recRootE` (which
+    reports "a visit raised" together with the state at that moment) returns within fuel `hbound h`, and
+    `remap`'s loop ends in agreement with it: same result, registry, rebuilt heap and enter / visit / exit
+    sequence when no visit raised; otherwise the loop stops with the visit's exception, and registry,
+    rebuilt heap and call sequence - up to and including the raising visit - are the recursion's. -/
+theorem heap_remap_eq_rec_raising (c : HCfg) (h : Heap) (id : Nat) (nd : Node) (hnd : h[id]? = some nd) :
+    ∃ r, recRootE c h (.ref id) (hbound h) = some r ∧ Agrees (hfinal c h (.ref id)) r := by
+  obtain ⟨r, hr⟩ := recRootE_returns c h id nd hnd
+  exact ⟨r, hr, hfinal_agrees_recRootE c h (.ref id) _ r hr⟩
+
+/-- non-vacuity: on `x = [7]; [x, x]` a visit that raises on ints (re-raised) stops `remap` at the very
+    first visit: root and `x` entered, 7 entered and visited - four events, nothing exited -/
+example : (match recRootE ⟨hprogVisit [⟨false, .isInt, .raise⟩], true⟩ exShared (.ref 0) (hbound exShared) with
+    | some (.raised st) => st.trace.length == 4 && (exitIds st.trace).isEmpty
+    | _ => false) = true ∧
+    (hfinal ⟨hprogVisit [⟨false, .isInt, .raise⟩], true⟩ exShared (.ref 0)).err = some .visitError := by
+  decide +kernel
+
 example : NoRaise copyH := by
   intro out p k v; simp [visitOut, copyH, hkeepVisit]
 
@@ -269,5 +289,192 @@ example : DictKeysNodup exShared ∧
     hsetOnPath exShared (.ref 0) [.int 0, .int 0] = false ∧
     (nestedEnters (hfinal copyH exShared (.ref 0))).length = 2 := by
   refine ⟨by simp [DictKeysNodup, exShared], by decide +kernel, by decide +kernel, by decide +kernel⟩
+
+
+/-! ## research as a function of the query (truthy / falsy / raising), both root conventions -/
+
+/-- every `(path, value)` that `research` reports is a nested item retrievable with `get_path` - unless its
+    path leads into a set / frozenset (the known finding) - or is the root's own entry `((None,), root)`,
+    which only an implementation that queries the root (`rootQ`) reports; whatever the query answers or
+    raises, with and without re-raising. -/
+theorem research_paths_correct_partial (rootQ reraise : Bool) (q : Path → Key → Val → Option Bool)
+    (kd : Kind) (its : Items) (hw : WFKeys (.node kd its)) (l : List (Path × Val))
+    (hr : research rootQ q reraise (.node kd its) = some l) (pv : Path × Val) (hm : pv ∈ l) :
+    (rootQ = true ∧ pv = ([.none], .node kd its)) ∨
+    (setOnPath (.node kd its) pv.1 = false → getPath (.node kd its) pv.1 = some pv.2) := by
+  obtain ⟨e, he, _, rfl⟩ := researchRun_mem q reraise _ l hr pv hm
+  simp only [researchCalls, List.mem_append] at he
+  rcases he with he | he
+  · left
+    cases rootQ with
+    | false => simp at he
+    | true => simp at he; subst he; simp
+  · right
+    intro hs
+    exact nested_paths_retrievable kd its hw e he hs
+
+/-- the two conventions differ by the root's own entry and nothing else: when both calls return, the one
+    that queries the root reports what the other reports, preceded by `((None,), root)` if the query is
+    truthy on the root -/
+theorem research_root_convention (reraise : Bool) (q : Path → Key → Val → Option Bool) (root : Val)
+    (l0 l1 : List (Path × Val))
+    (h0 : research false q reraise root = some l0) (h1 : research true q reraise root = some l1) :
+    l1 = l0 ∨ l1 = ([.none], root) :: l0 := by
+  simp only [research, researchCalls, if_true, List.singleton_append, Bool.false_eq_true, if_false,
+    List.nil_append] at h0 h1
+  simp only [researchRun] at h1
+  split at h1
+  · split at h1
+    · simp at h1
+    · left; rw [h0] at h1; injection h1 with h1; exact h1.symm
+  · left; rw [h0] at h1; injection h1 with h1; exact h1.symm
+  · right; rw [h0] at h1; simp at h1; exact h1.symm
+
+/-- `get_path(root, path, default)`: the default replaces the `PathAccessError` and nothing else -/
+theorem get_path_default (root : Val) (path : Path) (d : Val) :
+    (∀ v, getPath root path = some v → getPathD root path d = v) ∧
+    (getPath root path = none → getPathD root path d = d) := by
+  constructor
+  · intro v h; simp [getPathD, h]
+  · intro h; simp [getPathD, h]
+
+
+/-- non-vacuity: on `{'k': [7, (None,)]}` a query that raises on ints and is truthy otherwise, not
+    re-raised, reports the three non-int nested items; re-raised, the call fails; the root convention
+    adds `((None,), root)` in front -/
+example :
+    (research false (fun _ _ v => match v with | .leaf (.int _) => none | _ => some true) false exP).map
+        (fun l => l.map Prod.fst) = some [[.str "k"], [.str "k", .int 1], [.str "k", .int 1, .int 0]] ∧
+    (research false (fun _ _ v => match v with | .leaf (.int _) => none | _ => some true) true exP).isNone ∧
+    (research true (fun _ _ _ => some true) true exP).map (fun l => l.map Prod.fst) =
+      some [[.none], [.str "k"], [.str "k", .int 0], [.str "k", .int 1], [.str "k", .int 1, .int 0]] := by
+  refine ⟨by rfl, by rfl, by rfl⟩
+
+/-- `remap`'s first `enter` call is the root's own (empty path, key `None`), whatever the heap and the
+    visit callback: this is the call an implementation of `research` may or may not hand to the query -/
+theorem remap_enters_root_first (c : HCfg) (h : Heap) (root : Obj) :
+    ∀ e ∈ (enterLog (hfinal c h root).trace).take 1, e = ([], Atom.none, root) :=
+  first_enter_is_root c h root
+
+/-- heap level (sharing and cycles included): every `(path, value)` that `research` reports is retrievable
+    with `get_path` unless the path leads into a set / frozenset, or is the root's own entry -/
+theorem hresearch_paths_correct_partial (rootQ reraise : Bool) (q : Path → Key → Obj → Option Bool)
+    (h : Heap) (root : Obj) (hd : DictKeysNodup h) (l : List (Path × Obj))
+    (hr : hresearch rootQ q reraise h root = some l) (pv : Path × Obj) (hm : pv ∈ l) :
+    (rootQ = true ∧ pv = ([.none], root)) ∨
+    (hsetOnPath h root pv.1 = false → hgetPath h root pv.1 = some pv.2) := by
+  obtain ⟨e, he, _, rfl⟩ := researchRun_mem q reraise _ l hr pv hm
+  simp only [hresearchCalls, List.mem_append] at he
+  rcases he with he | he
+  · left
+    cases rootQ with
+    | false => simp at he
+    | true =>
+      refine ⟨rfl, ?_⟩
+      simp only [if_true] at he
+      rw [first_enter_is_root _ h root e he]; rfl
+  · right
+    intro hs
+    rw [hgetPath_eq_of_noSet h root _ hs]
+    exact LogOK_final _ h root hd e he
+
+example : (hresearch true (fun _ _ _ => some true) false exShared (.ref 0)).map (fun l => l.map Prod.fst) =
+    some [[.none], [.int 0], [.int 0, .int 0]] := by decide +kernel
+
+/-! ## custom `enter` / `exit` callbacks -/
+
+/-- For ARBITRARY `enter`, `visit` and `exit` callbacks (an `enter` that refuses to traverse, prunes,
+    reorders or invents items and new parents; an `exit` that builds anything from path, key, old
+    parent, new parent and new items): whenever the bottom-up recursion `gRoot` returns - a value or the
+    `TypeError` for a root that `enter` does not traverse - `remap`'s explicit-stack loop returns exactly
+    that after finitely many iterations, and keeps returning it however long it is run. -/
+theorem custom_callbacks_loop_eq_rec (c : GCfg) (n : Nat) (root : Val) (r : GRes)
+    (hr : gRoot c n root = some r) :
+    ∃ m, ∀ m', m ≤ m' → gRemapIter c m' root = some r :=
+  gRemap_eq_rec_aux c n root r hr
+
+/-- non-vacuity: `{'a': [1, frozenset({None})], None: ()}` with tuples not traversed and an exit that
+    returns `(key, len(old_parent), default_exit(...))`: the recursion returns -/
+example : ∃ v, gRoot (progCfg (.skipKind .tuple) [] .keyOld) 12 exT = some (.ok v) := ⟨_, rfl⟩
+
+/-- an `enter` that does not traverse the root: `TypeError`, from the recursion and from the loop -/
+example : gRoot (progCfg (.depthLimit 0) [] .dflt) 1 exT = some .typeError ∧
+    ∃ m, ∀ m', m ≤ m' → gRemapIter (progCfg (.depthLimit 0) [] .dflt) m' exT = some .typeError :=
+  ⟨rfl, custom_callbacks_loop_eq_rec _ 1 _ _ rfl⟩
+
+/-- the generic model specialises to the main one: with `default_enter` / `default_exit` plugged in,
+    the generic recursion (fuel > size) is the bottom-up rebuild `remapRec` of `remap_eq_rec` -/
+theorem custom_callbacks_generalise_default (vf : VisitFn Val) (kd : Kind) (its : Items) (n : Nat)
+    (hn : isize its < n) :
+    gRoot (dflt vf) n (.node kd its) = some (.ok (remapRec ⟨vf, defaultExit⟩ (.node kd its))) :=
+  gRoot_default vf kd its n hn
+
+
+/-! ## facts regenerated from the current source on every run (`Generated/C08_Facts.lean`)
+
+`regen()` EVALUATES `default_enter`, `default_exit`, `remap` and `research` of the current source on fixed
+samples (one per leaf class and container kind) and writes the resulting tables; the theorems below
+re-establish, on every run, that the model's built-in default callbacks produce exactly those tables.
+An equivalent rewrite of the source gives the same tables (nothing is pattern-matched). -/
+
+def keyTok : Atom → String
+  | .none => "n"
+  | .int i => "i" ++ toString i
+  | .str s => "s:" ++ s
+  | _ => "?"
+
+def kindTok : Kind → String
+  | .dict => "D" | .list => "L" | .tuple => "T" | .set => "S" | .fset => "F"
+
+/-- `{'a': 5, None: 6}` / `[5, 6]` / `(5, 6)` / `{5, 6}` / `frozenset({5, 6})` -/
+def twoItems (kd : Kind) : Val :=
+  .node kd (.cons (.str "a") (.leaf (.int 5)) (.cons .none (.leaf (.int 6)) .nil))
+
+def enterSamples : List (String × Val) :=
+  [("none", .leaf .none), ("int", .leaf (.int 5)), ("str", .leaf (.str "ab")), ("bytes", .leaf (.bytes [97, 98])),
+   ("float", .leaf (.float 3)), ("bool", .leaf (.bool true)), ("other", .leaf (.other 0)),
+   ("dict", twoItems .dict), ("list", twoItems .list), ("tuple", twoItems .tuple), ("set", twoItems .set),
+   ("fset", twoItems .fset)]
+
+/-- what the model's `default_enter` does on the samples, in the format of `Gen.enterTable` -/
+def modelEnterTable : List (String × Bool × String × List String) :=
+  enterSamples.map fun s =>
+    match defaultEnterG [] .none s.2 with
+    | none => (s.1, false, "", [])
+    | some (.node kd its, items) => (s.1, its.length == 0, kindTok kd, items.map fun kv => keyTok kv.1)
+    | some (.leaf _, _) => (s.1, false, "?", [])
+
+/-- `default_enter` of the current source, evaluated on one sample per leaf class and container kind,
+    does what the model's does: scalars (str and bytes included) are not traversed; a container gives an
+    empty container of its own class, dict items under their own keys, the members of sequences and
+    sets under 0, 1, … -/
+theorem default_enter_table_matches_model : Gen.enterTable = modelEnterTable := by decide +kernel
+
+mutual
+def plainT : Val → String
+  | .leaf a => keyTok a
+  | .node kd its => kindTok kd ++ "[" ++ plainIts (kd == .dict) true its ++ "]"
+def plainIts (isDict first : Bool) : Items → String
+  | .nil => ""
+  | .cons k v r =>
+    (if first then "" else ",") ++ (if isDict then keyTok k ++ "=" else "") ++ plainT v ++ plainIts isDict false r
+end
+
+/-- new items with a repeated key: `[(0, 5), (1, 6), (0, 7)]` -/
+def exitSampleItems : List (Key × Val) := [(.int 0, .leaf (.int 5)), (.int 1, .leaf (.int 6)), (.int 0, .leaf (.int 7))]
+
+def modelExitTable : List (String × String) :=
+  [("dict", Kind.dict), ("list", .list), ("tuple", .tuple), ("set", .set), ("fset", .fset)].map fun nk =>
+    (nk.1, plainT (defaultExit [] .none (.node nk.2 .nil) exitSampleItems))
+
+/-- `default_exit` of the current source on an empty new parent of each kind: a container of the new
+    parent's class; a dict keeps the position of a repeated key and takes its last value; sequences and
+    sets take the values in order and ignore the keys -/
+theorem default_exit_table_matches_model : Gen.exitTable = modelExitTable := by decide +kernel
+
+/-- the keyword defaults the harness relies on when it calls without them: a raising visit propagates
+    (`reraise_visit=True`, cf. `copyH`), a raising query does not (`reraise=False`) -/
+theorem keyword_defaults_match_model :
+    Gen.reraiseVisitDefault = copyH.reraise ∧ Gen.researchReraiseDefault = false := by decide
 
 end C08
